@@ -202,7 +202,11 @@ type c04Exec struct {
 }
 
 // c04Copy executes the copy once; failAt >= 0 injects one fault.
-func c04Copy(in *c04In, env *Env, failAt int, kind string) (ex c04Exec) {
+func c04Copy(in *c04In, env *Env, plan map[int]string) (ex c04Exec) {
+	failAt := -1
+	if plan != nil {
+		failAt = 0
+	}
 	key := "dst:" + in.Dst
 	res := env.Sim(SimOpts{MaxSteps: 100000, FairSteps: 30000}, func() {
 		st := &FaultState{FailAt: map[int]string{}, KeepTrace: failAt < 0}
@@ -232,8 +236,8 @@ func c04Copy(in *c04In, env *Env, failAt int, kind string) (ex c04Exec) {
 		}
 		st.Pos = 0
 		st.Trace = nil
-		if failAt >= 0 {
-			st.FailAt[failAt] = kind
+		for pos, kind := range plan {
+			st.FailAt[pos] = kind
 		}
 		func() {
 			defer func() {
@@ -316,7 +320,7 @@ func c04Run(inI interface{}, env *Env) *Failure {
 		return c04Stream(in, env)
 	}
 	mark := env.Mark()
-	dry := c04Copy(in, env, -1, "")
+	dry := c04Copy(in, env, nil)
 	seg := env.Segment(mark)
 	if dry.fail != nil {
 		return dry.fail
@@ -333,7 +337,7 @@ func c04Run(inI interface{}, env *Env) *Failure {
 		}
 		for _, k := range kinds {
 			var ex c04Exec
-			env.WithReplay(seg, func() { ex = c04Copy(in, env, pos, k) })
+			env.WithReplay(seg, func() { ex = c04Copy(in, env, map[int]string{pos: k}) })
 			env.Count("faulted-executions")
 			if len(ex.fired) == 0 {
 				env.Count("probe.faulted-position-not-reached")
@@ -345,6 +349,26 @@ func c04Run(inI interface{}, env *Env) *Failure {
 				ex.fail.Msg = fmt.Sprintf("[fault at position %d] %s", pos, ex.fail.Msg)
 				return ex.fail
 			}
+		}
+	}
+	// a few plans with two or three faults (the first may be survived by a retry-free helper
+	// only by reporting it; later ones must not turn the report into a success)
+	for k := 0; k < 3 && dry.positions > 1; k++ {
+		plan := map[int]string{}
+		for j := 0; j < 2+env.Draw(2); j++ {
+			pos := env.Draw(dry.positions)
+			kind := ""
+			if pos < len(dry.trace) && strings.HasPrefix(dry.trace[pos], "Write ") && env.Draw(2) == 1 {
+				kind = "torn"
+			}
+			plan[pos] = kind
+		}
+		var ex c04Exec
+		env.WithReplay(seg, func() { ex = c04Copy(in, env, plan) })
+		env.Count("multi-fault-executions")
+		if ex.fail != nil {
+			ex.fail.Msg = fmt.Sprintf("[faults at positions %v] %s", plan, ex.fail.Msg)
+			return ex.fail
 		}
 	}
 	return nil
